@@ -103,18 +103,22 @@ func runChild(specPath string) int {
 		}
 	})
 
-	db, err := zenodb.NewDB(&zenodb.DBOpts{Dir: spec.Dir, VirtualTime: true, WALSyncInterval: 0,
-		IterationCoalesceInterval: time.Millisecond})
+	cfg := spec.Script.DB
+	db, err := zenodb.NewDB(&zenodb.DBOpts{Dir: spec.Dir, VirtualTime: !cfg.RealClock, WALSyncInterval: 0,
+		IterationCoalesceInterval: time.Millisecond, ID: cfg.ID, MaxWALSize: cfg.MaxWALSize,
+		MaxMemoryRatio: cfg.MaxMemoryRatio, MaxWALMemoryBacklog: cfg.Backlog})
 	if err != nil {
 		fmt.Fprintln(os.Stderr, "child: NewDB:", err)
 		return exitInfra
 	}
+	// longer than the distance between baseTS and any wall clock this will run under (real-clock cases)
+	retention := 200000 * time.Hour
 	minLat, maxLat := 10000*time.Hour, 20000*time.Hour
 	if spec.Script.TimedFlushMs > 0 {
 		minLat, maxLat = time.Millisecond, time.Duration(spec.Script.TimedFlushMs)*time.Millisecond
 	}
 	for _, t := range spec.Script.Tables {
-		if err := db.CreateTable(&zenodb.TableOpts{Name: t.Name, RetentionPeriod: 1000 * time.Hour, SQL: t.SQL,
+		if err := db.CreateTable(&zenodb.TableOpts{Name: t.Name, RetentionPeriod: retention, SQL: t.SQL,
 			MinFlushLatency: minLat, MaxFlushLatency: maxLat}); err != nil {
 			fmt.Fprintln(os.Stderr, "child: CreateTable:", err)
 			return exitInfra
@@ -257,7 +261,9 @@ func runChild(specPath string) int {
 		ex := fields[vi].Expr
 		width := ex.EncodedWidth()
 		res := time.Second
-		if t.Name == "t2" {
+		if t.ResS > 0 {
+			res = time.Duration(t.ResS) * time.Second
+		} else if t.Name == "t2" {
 			res = 5 * time.Second
 		}
 		rows := []DumpRow{}
